@@ -219,6 +219,14 @@ def _store_array(
                 )
                 warn(warn_msg, stacklevel=2)
                 source = source.rechunk(target.shards)
+    if (
+        is_storage_array(target)
+        and (region is None or all(r == slice(None) for r in region))
+        and tuple(target.shape) != tuple(source.shape)
+    ):
+        raise ValueError(
+            f"Source array shape {source.shape} does not match target shape {tuple(target.shape)}"
+        )
     if is_storage_array(target) and getattr(target, "shards", None) is None:
         try:
             target_chunks = target.chunks
